@@ -1089,7 +1089,18 @@ def array_method(interp, st, fr, a, name, args, kw):
             raise Unsupported("diagonal of non 2-d")
         return PureArr((smin(shape[0], shape[1]),), lambda idx: fn((idx[0], idx[0])), kind)
     if name == 'sort':
-        raise Unsupported("in-place sort")
+        # in-place sort of a 1-d array: afterwards the cell holds SOME non-decreasing array of the same length
+        # (over-approximation: which permutation of the old values it is, is not tracked)
+        if not isinstance(a, ArrRef) or a.view is not None:
+            raise Unsupported("in-place sort of a view / temporary")
+        shape, fn, kind = npm.info(st, a)
+        if len(shape) != 1:
+            raise Unsupported("in-place sort of an n-d array")
+        new = uf_array(fresh_name('sorted'), shape, kind, fresh=True)
+        st.heap[a.addr] = ArrCell(shape, new.fn, kind)
+        nf = new.fn
+        st.assume(Forall([shape[0], shape[0]], lambda k, l: implies(compare('<=', k, l), compare('<=', nf((k,)), nf((l,)))), name='sorted in place'))
+        return None
     raise Unsupported("ndarray.%s" % name)
 
 
@@ -1351,3 +1362,24 @@ def astropy_table(interp, st, fr, args, kw):
     if args or kw:
         raise Unsupported("Table(...) with arguments")
     return table_new(st, {}, None)
+
+
+@model('numpy.unique')
+def np_unique(interp, st, fr, args, kw):
+    """sorted distinct values: modelled only as an array of unknown length (not used by the contracts so far)"""
+    n = Sc(z3.Int(fresh_name('n_unique')))
+    st.assume(compare('>=', n, 0))
+    return st.box(uf_array(fresh_name('unique'), (n,), 'real', fresh=True))
+
+
+@model('numpy.column_stack')
+def np_column_stack(interp, st, fr, args, kw):
+    parts = args[0]
+    if isinstance(parts, ListRef):
+        parts = st.heap[parts.addr].items
+    return Opaque('column_stack', tuple(parts))        # the columns are kept (matplotlib input)
+
+
+@model('matplotlib.collections.LineCollection')
+def mpl_linecollection(interp, st, fr, args, kw):
+    return Opaque('LineCollection', (args[0] if args else None, kw.get('colors')))
